@@ -150,6 +150,50 @@ func genTCPFlags() {
 	sb.WriteString("]\n\n")
 	all["tcpFlagTable"] = rows
 
+	// the fixed-flag subcommands: withTCPPacketFillerOptions(tcp.WithFIN(), ...) in command/tcp_<name>.go
+	sb.WriteString("/-- `(subcommand, layers.TCP fields its filler options feed)` from `withTCPPacketFillerOptions(...)` in\n")
+	sb.WriteString("    command/tcp_{syn,fin,null,xmas}.go -/\n")
+	sb.WriteString("def tcpSubcommandFlags : List (String × List String) := [")
+	for i, sub := range []string{"syn", "fin", "null", "xmas"} {
+		f := parseFile("command/tcp_" + sub + ".go")
+		var fields []string
+		nCalls := 0
+		ast.Inspect(f, func(n ast.Node) bool {
+			call, ok := n.(*ast.CallExpr)
+			if !ok || src(call.Fun) != "withTCPPacketFillerOptions" {
+				return true
+			}
+			nCalls++
+			for _, a := range call.Args {
+				oc, ok := a.(*ast.CallExpr)
+				if !ok || len(oc.Args) != 0 || !strings.HasPrefix(src(oc.Fun), "tcp.") {
+					problem("tcp %s: filler option %q is not a call tcp.WithXXX()", sub, src(a))
+					continue
+				}
+				ff, ok := optField[strings.TrimPrefix(src(oc.Fun), "tcp.")]
+				if !ok {
+					problem("tcp %s: option %s has no recognisable `f.X = true` body", sub, src(oc.Fun))
+					continue
+				}
+				h, ok := hdrOf[ff]
+				if !ok {
+					problem("tcp %s: filler field %q does not reach the header", sub, ff)
+					continue
+				}
+				fields = append(fields, h)
+			}
+			return true
+		})
+		if nCalls != 1 {
+			problem("tcp %s: %d calls of withTCPPacketFillerOptions", sub, nCalls)
+		}
+		if i > 0 {
+			sb.WriteString(", ")
+		}
+		sb.WriteString(fmt.Sprintf("(%s, %s)", leanStr(sub), leanStrList(fields)))
+	}
+	sb.WriteString("]\n\n")
+
 	// parseIPFlags: switch flag { case "df": result |= uint8(layers.IPv4DontFragment) ... default: return 0, errIPFlags }
 	cfg := parseFile("command/config.go")
 	bitOf := map[string]int{"layers.IPv4EvilBit": 4, "layers.IPv4DontFragment": 2, "layers.IPv4MoreFragments": 1} // gopacket layers/ip4.go (modelled)
